@@ -6,7 +6,7 @@
 From Coq Require Import ZArith List Bool.
 From V Require Import base.Cal posix.PTime posix.RDelta posix.TzParseModel posix.TzRangeModel
      posix.PosixSpec posix.TzLocalModel posix.TransThm posix.MainThm posix.PosixThm
-     posix.ParseThm posix.ParseFull posix.RejectThm posix.RejectFull posix.RejectFull2 posix.RejectFull3 posix.ParseShort posix.LocalThm posix.WallThm posix.SpecThm posix.FoldThm.
+     posix.ParseThm posix.ParseFull posix.RejectThm posix.RejectFull posix.RejectFull2 posix.RejectFull3 posix.ParseShort posix.ParseDep posix.LocalThm posix.WallThm posix.SpecThm posix.FoldThm.
 Import ListNotations.
 Open Scope Z_scope.
 
@@ -150,6 +150,17 @@ Theorem C08_short_form_same_zone : forall r ds po,
   tzstr_init (render_short r ds) po = tzstr_init (render_posix r) po.
 Proof. exact short_form_same_zone. Qed.
 Print Assumptions C08_short_form_same_zone.
+
+(* the DEPRECATED dateutil-specific comma format (month, week with -1 = last, weekday, seconds;
+   render_dep, ParseDep.v), e.g. 'EST+5:00EDT+4:00,3,2,0,7200,11,1,0,7200', of any well-formed rule
+   with two Mm.w.d dates builds exactly the zone of the canonical POSIX string *)
+Theorem C08_deprecated_form_same_zone : forall nm off dn doff m1 w1 d1 st m2 w2 d2 et po,
+  let r := mkPosix nm off (Some (mkDst dn doff (mkPrule (DM m1 w1 d1) st) (mkPrule (DM m2 w2 d2) et))) in
+  let ds := mkDst dn doff (mkPrule (DM m1 w1 d1) st) (mkPrule (DM m2 w2 d2) et) in
+  wf_posix r = true ->
+  tzstr_init (render_dep r ds m1 w1 d1 m2 w2 d2) po = tzstr_init (render_posix r) po.
+Proof. exact dep_form_same_zone. Qed.
+Print Assumptions C08_deprecated_form_same_zone.
 
 (* malformed strings are rejected with ValueError: the mechanism, for ALL strings *)
 Theorem C08_tzstr_rejects_unparsed : forall s po,
